@@ -75,7 +75,10 @@ def pixel_data(w: World, n: int) -> SVar:
     return w.it.track(da)
 
 
-def experiment(w: World, k: int, direct=True, transposed=False) -> SObj:
+def experiment(w: World, k: int, direct=True, transposed=False, template: SObj | None = None) -> SObj:
+    if template is not None:
+        # what dataclasses.replace(template, run_id=k) gives: the same variables (and their memory) in every record
+        return SObj(template.cls, {**template.attrs, 'run_id': k, 'filename': f'run{k}.nxs'})
     if direct:
         efix = w.sv(f'efix{k}', 'ueV')
         en = w.sv(f'en{k}', 'ueV', (3,), dims=['energy_transfer'])
@@ -135,7 +138,7 @@ class Written:
         self.n_runs = 0
 
 
-def build(repo: Repo, calls=('P', 'I', 'S', 'D', 'T'), byteorder='little', n_pixels=5, chunk=2, n_runs=1, target='memory', title='a title', indirect=False, transposed=False) -> Written:
+def build(repo: Repo, calls=('P', 'I', 'S', 'D', 'T'), byteorder='little', n_pixels=5, chunk=2, n_runs=1, target='memory', title='a title', indirect=False, transposed=False, shared_runs=False) -> Written:
     w = World(repo)
     out = Written()
     out.world, out.calls, out.byteorder, out.n_pixels, out.n_runs = w, tuple(calls), byteorder, n_pixels, n_runs
@@ -148,7 +151,10 @@ def build(repo: Repo, calls=('P', 'I', 'S', 'D', 'T'), byteorder='little', n_pix
     for c in calls:
         if c == 'P':
             sup['pixels'] = pixel_data(w, n_pixels)
-            sup['experiments'] = [experiment(w, k, direct=not indirect, transposed=transposed) for k in range(n_runs)]
+            sup['experiments'] = []
+            for k in range(n_runs):
+                tmpl = sup['experiments'][0] if shared_runs and sup['experiments'] else None
+                sup['experiments'].append(experiment(w, k, direct=not indirect, transposed=transposed, template=tmpl))
             kind, b2 = w.call(repo.func(BUILD, 'SqwBuilder.add_pixel_data'), [sup['pixels']], {'experiments': sup['experiments']}, bound=b)
         elif c == 'I':
             sup['instrument'] = instrument(w)
